@@ -88,8 +88,9 @@ class Child:
 def _main() -> int:
     import importlib
     import traceback
-    from . import use_repo
+    from . import use_repo, repo_stamp
     use_repo()
+    stamp_then, stamp_now = os.environ.get("VSIM_REPO_STAMP"), repo_stamp()
     out = sys.stdout
     sys.stdout = sys.stderr  # anything the engine prints must not corrupt the protocol
     for line in sys.stdin:
@@ -97,6 +98,10 @@ def _main() -> int:
         if not line:
             continue
         try:
+            if stamp_then and stamp_then != stamp_now:
+                # comparing this interpreter with one that imported an older tree would compare two programs
+                raise RuntimeError("REPO-CHANGED: the tree under test was modified while the check was running "
+                                   "(stamp %s at start, %s now); the run is void" % (stamp_then, stamp_now))
             req = json.loads(line)
             mod = importlib.import_module(req["mod"])
             res = getattr(mod, req["fn"])(**req["args"])
